@@ -1,7 +1,7 @@
 /-
   C03 — closing induction over the behaviour tree, and the outermost API calls.
 -/
-import GojaModel.C03.LemmasGen
+import GojaModel.C03.LemmasAsyncCA
 
 namespace GojaModel.C03
 
@@ -204,7 +204,7 @@ theorem step_good {runF : RunF} (HG : HypG runF) (HA : HypA runF) (lf : Nat) :
   | genThrow slot => simpa [step] using genResume_good HG HA slot (some .throw_) true s
   | genReturn slot => simpa [step] using genResume_good HG HA slot (some .return_) false s
   | asyncNew n f body => simpa [step] using asyncNew_good HG HA n f body s
-  | asyncResume id => simpa [step] using asyncResume_good HG HA id s
+  | asyncResume id => simpa [step] using asyncResumeCA_good HG HA id s
   | probe id => simpa [step] using probe_good id s
   | throw_ => exact ⟨by simpa [step, GoodCtl] using (Same.refl s).toExt true, fun _ => rfl⟩
   | break_ => exact ⟨by simpa [step, GoodCtl] using Same.refl s, fun _ => rfl⟩
